@@ -445,7 +445,7 @@ def _tid_of_counterexample(out):
 
 
 def validate_batch(rep, module, cfg, tlc_traces, label, chunk=2500,
-                   count=True, timeout=3000, dfs=False):
+                   count=True, timeout=3000, dfs=False, cfg_text=None):
     """Validate `tlc_traces` (JSON-able, what TLC reads).  Returns a list of
     (index, reason) for traces that are not accepted: reason is
     'invariant <name>' (TLC found an invariant of the spec violated in a
@@ -458,6 +458,10 @@ def validate_batch(rep, module, cfg, tlc_traces, label, chunk=2500,
             if not cur:
                 break
             wd = scratch("trace-")
+            if cfg_text is not None:      # configuration with literal
+                shutil.copytree(SPEC, os.path.join(wd, "spec"))   # constants
+                with open(os.path.join(wd, "spec", cfg), "w") as f:
+                    f.write(cfg_text)
             path = os.path.join(wd, "traces.json")
             with open(path, "w") as f:
                 json.dump([tlc_traces[i] for i in cur], f,
